@@ -1790,6 +1790,10 @@ macro_rules! value_mon_impl {
                         array.data = new_data.into();
                         array.into()
                     }
+                    // An array without elements has nothing the function could fail on.
+                    // This is also what rows gives when it has no row to call the function on.
+                    #[allow(unreachable_patterns)]
+                    val if val.shape.elements() == 0 => val,
                     #[allow(unreachable_patterns)]
                     val => return Err(env.error($name::error(val.type_name())))
                 }))?;
